@@ -5,6 +5,7 @@ CONSTANTS
   DbIds = {"com", "x.com", "a.x.com", "io"}
   EmitOn = FALSE
   ImplOnly = FALSE
+  ImplNegAgain = FALSE
 VIEW GraphView
 INVARIANTS TypeOK CacheTransparent RefAdmissible
 PROPERTIES StepProps
